@@ -57,6 +57,9 @@ CHECKS = {
     "C14": dict(
         text="Coq theorems over the model of the simulated device's request handling (ParseRecv dispatch + the five callbacks, composed from the C02/C05/C06/C17 models): rejected input (padding, noise without an accepted frame, damaged requests) changes nothing and answers nothing; every well-formed request, padded for any write padding, is handled like the unpadded one; enable/divider requests in single/all/bulk form land on exactly the addressed channels with one ACK iff ACK support is advertised; start/stop set the stream flag; common-info / channel-info responses are this device's info (which decodes on the client to the configuration by C06); sampling round: samples only of enabled channels, every enabled generator advances by exactly one. Differential: random device definitions and request sequences with padding/noise/damaged requests on the real DummyDev, responses and state compared after every write; streaming scenario with stop/start cycles checking per-channel continuity.",
         design="3/C14", technique="Coq proof (composition of the request/info/dispatch theorems; induction over channels for sampling) + differential correspondence on the real simulated device"),
+    "C08": dict(
+        text="Coq theorems over the model of the fan-out loop and of subscribe/unsubscribe: one frame appends to every queue exactly the groups of the enabled channels it is subscribed to, once per subscription, and changes nothing else; for ANY sequence of frames the queue holds, after what it held, the groups in frame order (no gap, no duplicate, nothing foreign); frames without samples / with foreign or disabled channels only / with just the overflow flag disturb nothing; an unsubscribed queue receives nothing; the two hops in front (receive thread routing, stream queue) are FIFO for every interleaving (delivered ++ waiting = sent); progress and termination of draining (eventual delivery under fairness of the two library threads). Tie: scripted frame sequences with subscribe/unsubscribe/buffered-unwritten changes on the real NxscopeHandler compared with the model; concurrent bursts with subscription churn judged by the run monitor. PARTIAL on 'eventually': OS fairness assumed.",
+        design="3/C08", technique="Coq proof (induction over frame sequences and pipeline traces) + differential on the real handler + monitored concurrent exploration"),
 }
 PENDING = {}
 
